@@ -170,7 +170,10 @@ class CfgScenario(explore.Scenario):
             elif kind == "update":
                 res = cfg.update([self.edge(w, i) for i in op[1]])
             elif kind in ("ior", "iand", "isub", "ixor"):
-                other = {self.edge(w, i) for i in op[1]}
+                # an insertion-ordered Set (dict keys view), so that the order
+                # in which the operator visits the operand is under our
+                # control and replays are deterministic
+                other = dict.fromkeys(self.edge(w, i) for i in op[1]).keys()
                 fn = {"ior": operator.ior, "iand": operator.iand,
                       "isub": operator.isub, "ixor": operator.ixor}[kind]
                 res = fn(cfg, other)
